@@ -93,7 +93,8 @@ def plainP (call : Call) (l : Nat) : Prop := call = .write l ∨ call = .wwait l
 
 /-- program counters of a plain producer call for `l` bytes before the cursor store -/
 def prePc (call : Call) (l : Nat) : Pc → Bool
-  | .s30 n | .s31 n | .s32 n _ | .s33 n _ | .s34 n _ | .s35 n _ | .s36 n _ | .s36w n _ | .s37 n _ | .s38 n _ _ => n == l
+  | .s30 n | .s31 n | .s32 n _ | .s33 n _ | .s34 n _ | .s35 n _ | .s36 n _ | .s36w n _ | .s37 n _ | .s38 n _ _
+  | .s39 n _ => n == l
   | .w40 n | .w41c n _ _ | .w42 n _ => n == l && isWrite call
   | .c50 n _ => n == l && isWcommit call
   | _ => false
@@ -107,6 +108,12 @@ def postPc (call : Call) (l : Nat) : Pc → Bool
 /-- at or before the `isDone` entry test of `waitForWriteSpace` -/
 def entryPc : Pc → Bool
   | .w40 _ | .s30 _ => true
+  | _ => false
+/-- not yet past the LAST `isDone` test of the call (mark 39, after the last look at the consumer cursor): every
+program counter of `waitForWriteSpace` and the entry of `Write`; after it come only the byte copy and the cursor store -/
+def beforeFinal : Pc → Bool
+  | .w40 _ | .s30 _ | .s31 _ | .s32 _ _ | .s33 _ _ | .s34 _ _ | .s35 _ _ | .s36 _ _ | .s36w _ _ | .s37 _ _ | .s38 _ _ _
+  | .s39 _ _ => true
   | _ => false
 def isW40 : Pc → Bool
   | .w40 _ => true
@@ -131,12 +138,15 @@ structure PPost (call : Call) (l : Nat) (rest : List Call) (th : Th) : Prop wher
 inductive PreOut (cfg : Cfg) (call : Call) (l : Nat) (rest : List Call) (sh sh' : Sh) (th th' : Th) : Prop where
   | stay : PPre cfg call l rest sh' th' → sh'.pseq = sh.pseq →
       (entryPc th.pc = true → entryPc th'.pc = false → sh.done = false) →
-      (entryPc th.pc = false → entryPc th'.pc = false) → PreOut cfg call l rest sh sh' th th'
-  | commit : commits call = true → PPost call l rest th' → sh'.pseq = sh.pseq + l → entryPc th.pc = false →
+      (entryPc th.pc = false → entryPc th'.pc = false) →
+      (beforeFinal th.pc = false → beforeFinal th'.pc = false) →
+      (beforeFinal th.pc = true → beforeFinal th'.pc = false → sh.done = false ∧ sh.pseq + l ≤ sh.cseq + cfg.size) →
       PreOut cfg call l rest sh sh' th th'
+  | commit : commits call = true → PPost call l rest th' → sh'.pseq = sh.pseq + l → entryPc th.pc = false →
+      beforeFinal th.pc = false → PreOut cfg call l rest sh sh' th th'
   | ret (r : Res) : th'.pc = .idle → th'.prog = rest → th'.res = some r → sh'.pseq = sh.pseq →
       ((r.err = .eof ∧ sh.done = true) ∨ (r.err = .full ∧ cfg.size < l) ∨
-       (r.err = .ok ∧ commits call = false ∧ entryPc th.pc = false ∧ sh.pseq + l ≤ sh.cseq + cfg.size)) →
+       (r.err = .ok ∧ commits call = false ∧ entryPc th.pc = false ∧ sh.done = false ∧ sh.pseq + l ≤ sh.cseq + cfg.size)) →
       PreOut cfg call l rest sh sh' th th'
 
 theorem pre_own (cfg : Cfg) (base : Nat) (call : Call) (l : Nat) (rest : List Call) (sh sh' : Sh) (th th' : Th)
@@ -157,41 +167,34 @@ theorem pre_own (cfg : Cfg) (base : Nat) (call : Call) (l : Nat) (rest : List Ca
     rcases hs with ⟨h1, rfl, rfl⟩ | ⟨h1, rfl, rfl⟩
     · refine .ret { err := .eof } ?_ ?_ ?_ rfl (Or.inl ⟨rfl, h1⟩)
       all_goals (rcases hk with rfl | rfl | ⟨m, rfl⟩ <;> rfl)
-    · exact .stay ⟨rfl, rfl, by simp [prePc, Th.goto], nofun, fun _ => hfit⟩ rfl (fun _ _ => by simpa using h1) nofun
+    · exact .stay ⟨rfl, rfl, by simp [prePc, Th.goto], nofun, fun _ => hfit⟩ rfl (fun _ _ => by simpa using h1) nofun (fun h => by simp [beforeFinal] at h) (fun _ h => by simp [Th.goto, beforeFinal] at h)
   case s31 n =>
     subst hpc
     have hfit : n ≤ cfg.size := hfits rfl
     tstep_norm
     rcases hs with ⟨h1, rfl, rfl⟩ | ⟨h1, rfl, rfl⟩
-    · exact .stay ⟨rfl, rfl, by simp [prePc, Th.goto], nofun, fun _ => hfit⟩ rfl nofun (fun _ => rfl)
-    · have hsp : sh.pseq + n ≤ sh.cseq + cfg.size := by omega
-      rcases hk with rfl | rfl | ⟨m, rfl⟩
-      · exact .stay ⟨rfl, rfl, by simp [wfsOk, Th.goto, prePc, isWrite], nofun, fun _ => hfit⟩ rfl nofun (fun _ => rfl)
-      · simp only [wfsOk]
-        split
-        · exact .ret _ rfl rfl rfl rfl (Or.inr (Or.inr ⟨rfl, rfl, rfl, hsp⟩))
-        · exact .ret _ rfl rfl rfl rfl (Or.inr (Or.inr ⟨rfl, rfl, rfl, hsp⟩))
-      · exact .stay ⟨rfl, rfl, by simp [wfsOk, Th.goto, prePc, isWcommit], nofun, fun _ => hfit⟩ rfl nofun (fun _ => rfl)
+    · exact .stay ⟨rfl, rfl, by simp [prePc, Th.goto], nofun, fun _ => hfit⟩ rfl nofun (fun _ => rfl) (fun h => by simp [beforeFinal] at h) (fun _ h => by simp [Th.goto, beforeFinal] at h)
+    · exact .stay ⟨rfl, rfl, by simp [prePc, Th.goto], nofun, fun _ => hfit⟩ rfl nofun (fun _ => rfl) (fun h => by simp [beforeFinal] at h) (fun _ h => by simp [Th.goto, beforeFinal] at h)
   case s32 n ppos =>
     subst hpc
     have hfit : n ≤ cfg.size := hfits rfl
     tstep_norm
     obtain ⟨_, rfl, rfl⟩ := hs
-    exact .stay ⟨rfl, rfl, by simp [prePc, Th.goto], nofun, fun _ => hfit⟩ (by simp) nofun (fun _ => rfl)
+    exact .stay ⟨rfl, rfl, by simp [prePc, Th.goto], nofun, fun _ => hfit⟩ (by simp) nofun (fun _ => rfl) (fun h => by simp [beforeFinal] at h) (fun _ h => by simp [Th.goto, beforeFinal] at h)
   case s33 n ppos =>
     subst hpc
     have hfit : n ≤ cfg.size := hfits rfl
     tstep_norm
     rcases hs with ⟨h1, rfl, rfl⟩ | ⟨h1, rfl, rfl⟩
-    · exact .stay ⟨rfl, rfl, by simp [prePc, Th.goto], nofun, fun _ => hfit⟩ rfl nofun (fun _ => rfl)
-    · exact .stay ⟨rfl, rfl, by simp [prePc, Th.goto], nofun, fun _ => hfit⟩ rfl nofun (fun _ => rfl)
+    · exact .stay ⟨rfl, rfl, by simp [prePc, Th.goto], nofun, fun _ => hfit⟩ rfl nofun (fun _ => rfl) (fun h => by simp [beforeFinal] at h) (fun _ h => by simp [Th.goto, beforeFinal] at h)
+    · exact .stay ⟨rfl, rfl, by simp [prePc, Th.goto], nofun, fun _ => hfit⟩ rfl nofun (fun _ => rfl) (fun h => by simp [beforeFinal] at h) (fun _ h => by simp [Th.goto, beforeFinal] at h)
   case s34 n ppos =>
     subst hpc
     have hfit : n ≤ cfg.size := hfits rfl
     tstep_norm
     rcases hs with ⟨h1, rfl, rfl⟩ | ⟨h1, rfl, rfl⟩
-    · exact .stay ⟨rfl, rfl, by simp [prePc, Th.goto], fun _ => h1, fun _ => hfit⟩ rfl nofun (fun _ => rfl)
-    · exact .stay ⟨rfl, rfl, by simp [prePc, Th.goto], nofun, fun _ => hfit⟩ rfl nofun (fun _ => rfl)
+    · exact .stay ⟨rfl, rfl, by simp [prePc, Th.goto], fun _ => h1, fun _ => hfit⟩ rfl nofun (fun _ => rfl) (fun h => by simp [beforeFinal] at h) (fun _ h => by simp [Th.goto, beforeFinal] at h)
+    · exact .stay ⟨rfl, rfl, by simp [prePc, Th.goto], nofun, fun _ => hfit⟩ rfl nofun (fun _ => rfl) (fun h => by simp [beforeFinal] at h) (fun _ h => by simp [Th.goto, beforeFinal] at h)
   case s35 n ppos =>
     subst hpc
     have hdn : sh.done = true := hd35 rfl
@@ -204,37 +207,49 @@ theorem pre_own (cfg : Cfg) (base : Nat) (call : Call) (l : Nat) (rest : List Ca
     have hfit : n ≤ cfg.size := hfits rfl
     tstep_norm
     obtain ⟨rfl, rfl⟩ := hs
-    exact .stay ⟨rfl, rfl, by simp [prePc, Th.goto], nofun, fun _ => hfit⟩ (by simp [Sh.park]) nofun (fun _ => rfl)
+    exact .stay ⟨rfl, rfl, by simp [prePc, Th.goto], nofun, fun _ => hfit⟩ (by simp [Sh.park]) nofun (fun _ => rfl) (fun h => by simp [beforeFinal] at h) (fun _ h => by simp [Th.goto, beforeFinal] at h)
   case s36w n ppos =>
     subst hpc
     have hfit : n ≤ cfg.size := hfits rfl
     tstep_norm
     obtain ⟨_, _, rfl, rfl⟩ := hs
-    exact .stay ⟨rfl, rfl, by simp [prePc, Th.goto], nofun, fun _ => hfit⟩ (by simp) nofun (fun _ => rfl)
+    exact .stay ⟨rfl, rfl, by simp [prePc, Th.goto], nofun, fun _ => hfit⟩ (by simp) nofun (fun _ => rfl) (fun h => by simp [beforeFinal] at h) (fun _ h => by simp [Th.goto, beforeFinal] at h)
   case s37 n ppos =>
     subst hpc
     have hfit : n ≤ cfg.size := hfits rfl
     tstep_norm
     rcases hs with ⟨h1, rfl, rfl⟩ | ⟨h1, rfl, rfl⟩
-    · exact .stay ⟨rfl, rfl, by simp [prePc, Th.goto], nofun, fun _ => hfit⟩ rfl nofun (fun _ => rfl)
-    · exact .stay ⟨rfl, rfl, by simp [prePc, Th.goto], nofun, fun _ => hfit⟩ rfl nofun (fun _ => rfl)
+    · exact .stay ⟨rfl, rfl, by simp [prePc, Th.goto], nofun, fun _ => hfit⟩ rfl nofun (fun _ => rfl) (fun h => by simp [beforeFinal] at h) (fun _ h => by simp [Th.goto, beforeFinal] at h)
+    · exact .stay ⟨rfl, rfl, by simp [prePc, Th.goto], nofun, fun _ => hfit⟩ rfl nofun (fun _ => rfl) (fun h => by simp [beforeFinal] at h) (fun _ h => by simp [Th.goto, beforeFinal] at h)
   case s38 n ppos cpos =>
     subst hpc
     have hfit : n ≤ cfg.size := hfits rfl
-    simp only [pcP] at hp
-    obtain ⟨e1, e2, e3, e4, e5⟩ := hp
-    have e1' : ppos = sh.pseq := e1
-    have e3' : cpos ≤ sh.cseq := e3
-    have hsp : sh.pseq + n ≤ sh.cseq + cfg.size := by omega
     tstep_norm
     obtain ⟨rfl, rfl⟩ := hs
-    rcases hk with rfl | rfl | ⟨m, rfl⟩
-    · exact .stay ⟨rfl, rfl, by simp [wfsOk, Th.goto, prePc, isWrite], nofun, fun _ => hfit⟩ (by simp) nofun (fun _ => rfl)
-    · simp only [wfsOk]
-      split
-      · exact .ret _ rfl rfl rfl (by simp) (Or.inr (Or.inr ⟨rfl, rfl, rfl, hsp⟩))
-      · exact .ret _ rfl rfl rfl (by simp) (Or.inr (Or.inr ⟨rfl, rfl, rfl, hsp⟩))
-    · exact .stay ⟨rfl, rfl, by simp [wfsOk, Th.goto, prePc, isWcommit], nofun, fun _ => hfit⟩ (by simp) nofun (fun _ => rfl)
+    exact .stay ⟨rfl, rfl, by simp [prePc, Th.goto], nofun, fun _ => hfit⟩ (by simp) nofun (fun _ => rfl) (fun h => by simp [beforeFinal] at h) (fun _ h => by simp [Th.goto, beforeFinal] at h)
+  case s39 n ppos =>
+    subst hpc
+    have hfit : n ≤ cfg.size := hfits rfl
+    simp only [pcP] at hp
+    obtain ⟨e1, e2, e3⟩ := hp
+    have e1' : ppos = sh.pseq := e1
+    have hsp : sh.pseq + n ≤ sh.cseq + cfg.size := by
+      have e2' : ppos + n ≤ sh.cseq + cfg.size := e2
+      omega
+    tstep_norm
+    rcases hs with ⟨h1, rfl, rfl⟩ | ⟨h1, rfl, rfl⟩
+    · refine .ret { err := .eof } ?_ ?_ ?_ rfl (Or.inl ⟨rfl, h1⟩)
+      all_goals (rcases hk with rfl | rfl | ⟨m, rfl⟩ <;> rfl)
+    · have hdf : sh.done = false := by simpa using h1
+      rcases hk with rfl | rfl | ⟨m, rfl⟩
+      · exact .stay ⟨rfl, rfl, by simp [wfsOk, Th.goto, prePc, isWrite], nofun, fun _ => hfit⟩ rfl nofun (fun _ => rfl)
+          (fun h => by simp [beforeFinal] at h) (fun _ _ => ⟨hdf, hsp⟩)
+      · simp only [wfsOk]
+        split
+        · exact .ret _ rfl rfl rfl rfl (Or.inr (Or.inr ⟨rfl, rfl, rfl, hdf, hsp⟩))
+        · exact .ret _ rfl rfl rfl rfl (Or.inr (Or.inr ⟨rfl, rfl, rfl, hdf, hsp⟩))
+      · exact .stay ⟨rfl, rfl, by simp [wfsOk, Th.goto, prePc, isWcommit], nofun, fun _ => hfit⟩ rfl nofun (fun _ => rfl)
+          (fun h => by simp [beforeFinal] at h) (fun _ _ => ⟨hdf, hsp⟩)
   case w40 n =>
     obtain ⟨rfl, hw⟩ := hpc
     have hcall : call = .write n := by
@@ -249,27 +264,28 @@ theorem pre_own (cfg : Cfg) (base : Nat) (call : Call) (l : Nat) (rest : List Ca
         exact .ret { err := .full } rfl rfl rfl rfl (Or.inr (Or.inl ⟨rfl, hbig⟩))
       · rename_i hsm
         exact .stay ⟨rfl, rfl, by simp [prePc, Th.goto], nofun, fun _ => by omega⟩ rfl (fun _ h => by simp [Th.goto, entryPc] at h) nofun
+          (fun h => by simp [beforeFinal] at h) (fun _ h => by simp [Th.goto, beforeFinal] at h)
   case w41c n ppos j =>
     obtain ⟨rfl, hw⟩ := hpc
     have hfit : n ≤ cfg.size := hfits rfl
     tstep_norm
     rcases hs with ⟨h1, rfl, rfl⟩ | ⟨h1, rfl, rfl⟩
-    · exact .stay ⟨rfl, rfl, by simp [prePc, Th.goto, hw], nofun, fun _ => hfit⟩ rfl nofun (fun _ => rfl)
-    · exact .stay ⟨rfl, rfl, by simp [prePc, Th.goto, hw], nofun, fun _ => hfit⟩ rfl nofun (fun _ => rfl)
+    · exact .stay ⟨rfl, rfl, by simp [prePc, Th.goto, hw], nofun, fun _ => hfit⟩ rfl nofun (fun _ => rfl) (fun _ => rfl) (fun h => by simp [beforeFinal] at h)
+    · exact .stay ⟨rfl, rfl, by simp [prePc, Th.goto, hw], nofun, fun _ => hfit⟩ rfl nofun (fun _ => rfl) (fun _ => rfl) (fun h => by simp [beforeFinal] at h)
   case w42 n ppos =>
     obtain ⟨rfl, hw⟩ := hpc
     simp only [pcP] at hp
     have e1' : ppos = sh.pseq := hp.1
     tstep_norm
     obtain ⟨rfl, rfl⟩ := hs
-    exact .commit (by simp [commits, hw]) ⟨rfl, rfl, by simp [postPc, Th.goto, hw]⟩ (by show ppos + n = sh.pseq + n; rw [e1']) rfl
+    exact .commit (by simp [commits, hw]) ⟨rfl, rfl, by simp [postPc, Th.goto, hw]⟩ (by show ppos + n = sh.pseq + n; rw [e1']) rfl rfl
   case c50 n ppos =>
     obtain ⟨rfl, hw⟩ := hpc
     simp only [pcP] at hp
     have e1' : ppos = sh.pseq := hp.1
     tstep_norm
     obtain ⟨rfl, rfl⟩ := hs
-    exact .commit (by simp [commits, hw]) ⟨rfl, rfl, by simp [postPc, Th.goto, hw]⟩ (by show ppos + n = sh.pseq + n; rw [e1']) rfl
+    exact .commit (by simp [commits, hw]) ⟨rfl, rfl, by simp [postPc, Th.goto, hw]⟩ (by show ppos + n = sh.pseq + n; rw [e1']) rfl rfl
 
 theorem post_own (cfg : Cfg) (call : Call) (l : Nat) (rest : List Call) (sh sh' : Sh) (th th' : Th)
     (hk : plainP call l) (hpost : PPost call l rest th) (hs : tstep cfg sh .p th = some (sh', th')) :
@@ -430,6 +446,12 @@ def LinP (cfg : Cfg) (l : Nat) (x y : St) : Prop :=
   step cfg x .p = some y ∧ x.sh.pseq + l ≤ x.sh.cseq + cfg.size ∧ y.sh.pseq = x.sh.pseq + l ∧
     y.sh.cseq = x.sh.cseq ∧ y.sh.done = x.sh.done
 
+/-- the linearisation step of `waitForWriteSpace(l)` answering `ok`: an own step `x → y` of thread `p` — its LAST `isDone`
+test — before which the ring is open and `buf + l ≤ cap` holds, and which changes nothing `absRing` sees -/
+def LinW (cfg : Cfg) (l : Nat) (x y : St) : Prop :=
+  step cfg x .p = some y ∧ x.sh.done = false ∧ x.sh.pseq + l ≤ x.sh.cseq + cfg.size ∧ y.sh.pseq = x.sh.pseq ∧
+    y.sh.cseq = x.sh.cseq ∧ y.sh.done = x.sh.done
+
 theorem pcall_post (cfg : Cfg) (base : Nat) (call : Call) (l : Nat) (rest : List Call) (hk : plainP call l)
     (s : St) (sched : List Tid) (h : RInv cfg base s) (hp : PPost call l rest s.P) (r : Res)
     (hret : pRet (run cfg s sched) rest r) :
@@ -478,6 +500,10 @@ structure PConcl (cfg : Cfg) (call : Call) (l : Nat) (s : St) (sched : List Tid)
       ∃ pre post, sched = pre ++ .p :: post ∧ LinP cfg l (run cfg s pre) (run cfg s (pre ++ [.p]))
   okw : r.err = .ok → commits call = false → (run cfg s sched).sh.pseq = s.sh.pseq ∧
       (run cfg s sched).sh.pseq + l ≤ (run cfg s sched).sh.cseq + cfg.size
+  okt : r.err = .ok → beforeFinal s.P.pc = true →
+      ∃ pre post, sched = pre ++ .p :: post ∧ LinW cfg l (run cfg s pre) (run cfg s (pre ++ [.p])) ∧
+        (commits call = true → ∃ mid post', post = mid ++ .p :: post' ∧
+          LinP cfg l (run cfg s (pre ++ .p :: mid)) (run cfg s (pre ++ .p :: mid ++ [.p])))
 
 theorem pcall_pre (cfg : Cfg) (base : Nat) (call : Call) (l : Nat) (rest : List Call) (hk : plainP call l)
     (s : St) (sched : List Tid) (h : RInv cfg base s) (hp : PPre cfg call l rest s.sh s.P) (r : Res)
@@ -490,37 +516,60 @@ theorem pcall_pre (cfg : Cfg) (base : Nat) (call : Call) (l : Nat) (rest : List 
     rw [h1] at h2
     simp [prePc] at h2
   | cons t ts ih =>
+    -- prepending a step that is skipped, or taken, to a decomposition of the rest
+    have liftT : ∀ (s' : St), (∀ pre : List Tid, run cfg s (t :: pre) = run cfg s' pre) →
+        (∃ pre post, ts = pre ++ .p :: post ∧ LinW cfg l (run cfg s' pre) (run cfg s' (pre ++ [.p])) ∧
+          (commits call = true → ∃ mid post', post = mid ++ .p :: post' ∧
+            LinP cfg l (run cfg s' (pre ++ .p :: mid)) (run cfg s' (pre ++ .p :: mid ++ [.p])))) →
+        (∃ pre post, t :: ts = pre ++ .p :: post ∧ LinW cfg l (run cfg s pre) (run cfg s (pre ++ [.p])) ∧
+          (commits call = true → ∃ mid post', post = mid ++ .p :: post' ∧
+            LinP cfg l (run cfg s (pre ++ .p :: mid)) (run cfg s (pre ++ .p :: mid ++ [.p])))) := by
+      intro s' hpre1 ⟨pre, post, b3, b4, b5⟩
+      refine ⟨t :: pre, post, by rw [b3]; rfl, ?_, fun hc => ?_⟩
+      · rw [hpre1 pre, show t :: pre ++ [Tid.p] = t :: (pre ++ [Tid.p]) from rfl, hpre1]; exact b4
+      · obtain ⟨mid, post', c1, c2⟩ := b5 hc
+        refine ⟨mid, post', c1, ?_⟩
+        rw [show t :: pre ++ Tid.p :: mid = t :: (pre ++ Tid.p :: mid) from rfl, hpre1,
+          show t :: (pre ++ Tid.p :: mid) ++ [Tid.p] = t :: (pre ++ Tid.p :: mid ++ [Tid.p]) from rfl, hpre1]
+        exact c2
+    have liftC : ∀ (s' : St), (∀ pre : List Tid, run cfg s (t :: pre) = run cfg s' pre) →
+        (∃ pre post, ts = pre ++ .p :: post ∧ LinP cfg l (run cfg s' pre) (run cfg s' (pre ++ [.p]))) →
+        (∃ pre post, t :: ts = pre ++ .p :: post ∧ LinP cfg l (run cfg s pre) (run cfg s (pre ++ [.p]))) := by
+      intro s' hpre1 ⟨pre, post, b3, b4⟩
+      refine ⟨t :: pre, post, by rw [b3]; rfl, ?_⟩
+      rw [hpre1 pre, show t :: pre ++ [Tid.p] = t :: (pre ++ [Tid.p]) from rfl, hpre1]; exact b4
     cases hs : step cfg s t with
     | none =>
       have hrun : run cfg s (t :: ts) = run cfg s ts := by rw [run_cons, hs]; rfl
+      have hpre1 : ∀ pre : List Tid, run cfg s (t :: pre) = run cfg s pre := fun pre => by rw [run_cons, hs]; rfl
       rw [hrun] at hret
-      obtain ⟨a1, a2, a3, a4, a5, a6⟩ := ih s h hp hret
-      refine ⟨a1, by rw [hrun]; exact a2, by rw [hrun]; exact a3, a4, ?_, by rw [hrun]; exact a6⟩
-      intro hok hc
-      obtain ⟨b1, b2, pre, post, b3, b4⟩ := a5 hok hc
-      refine ⟨b1, by rw [hrun]; exact b2, t :: pre, post, by rw [b3]; rfl, ?_⟩
-      have e1 : run cfg s (t :: pre) = run cfg s pre := by rw [run_cons, hs]; rfl
-      have e2 : run cfg s (t :: pre ++ [.p]) = run cfg s (pre ++ [.p]) := by
-        rw [List.cons_append, run_cons, hs]; rfl
-      rw [e1, e2]; exact b4
+      obtain ⟨a1, a2, a3, a4, a5, a6, a7⟩ := ih s h hp hret
+      refine ⟨a1, by rw [hrun]; exact a2, by rw [hrun]; exact a3, a4, ?_, by rw [hrun]; exact a6, ?_⟩
+      · intro hok hc
+        obtain ⟨b1, b2, hex⟩ := a5 hok hc
+        exact ⟨b1, by rw [hrun]; exact b2, liftC s hpre1 hex⟩
+      · intro hok hb
+        exact liftT s hpre1 (a7 hok hb)
     | some s' =>
       have hrun : run cfg s (t :: ts) = run cfg s' ts := by rw [run_cons, hs]; rfl
       rw [hrun] at hret
       have h' := inv_step cfg base s s' t h hs
       have hpre1 : ∀ pre : List Tid, run cfg s (t :: pre) = run cfg s' pre := fun pre => by rw [run_cons, hs]; rfl
-      -- lifting the conclusion for `s'` to `s` when the step kept the producer cursor
+      -- lifting the conclusion for `s'` to `s` when the step kept the producer cursor and the phase before / after the last test
       have lift : s'.sh.pseq = s.sh.pseq → PConcl cfg call l s' ts r → (r.err = .ok → entryPc s.P.pc = true → s.sh.done = false) →
+          (beforeFinal s.P.pc = true → beforeFinal s'.P.pc = true) →
           PConcl cfg call l s (t :: ts) r := by
-        intro epseq ⟨a1, a2, a3, a4, a5, a6⟩ hd
-        refine ⟨a1, ?_, ?_, hd, ?_, ?_⟩
+        intro epseq ⟨a1, a2, a3, a4, a5, a6, a7⟩ hd hbf
+        refine ⟨a1, ?_, ?_, hd, ?_, ?_, ?_⟩
         · intro he; rw [hrun]; obtain ⟨x, y⟩ := a2 he; exact ⟨x, by rw [y, epseq]⟩
         · intro he; rw [hrun]; obtain ⟨x, y⟩ := a3 he; exact ⟨x, by rw [y, epseq]⟩
         · intro hok hc
-          obtain ⟨b1, b2, pre, post, b3, b4⟩ := a5 hok hc
-          refine ⟨b1, by rw [hrun, b2, epseq], t :: pre, post, by rw [b3]; rfl, ?_⟩
-          rw [hpre1 pre, show t :: pre ++ [Tid.p] = t :: (pre ++ [Tid.p]) from rfl, hpre1]; exact b4
+          obtain ⟨b1, b2, hex⟩ := a5 hok hc
+          exact ⟨b1, by rw [hrun, b2, epseq], liftC s' hpre1 hex⟩
         · intro hok hc
           rw [hrun]; obtain ⟨x, y⟩ := a6 hok hc; exact ⟨by rw [x, epseq], y⟩
+        · intro hok hb
+          exact liftT s' hpre1 (a7 hok (hbf hb))
       by_cases htp : t = .p
       · subst htp
         obtain ⟨hst, _, _⟩ := step_p cfg s s' hs
@@ -529,39 +578,66 @@ theorem pcall_pre (cfg : Cfg) (base : Nat) (call : Call) (l : Nat) (rest : List 
           · exact e
           · exact absurd e (prePc_not_x10 call l _ hp.pc)
         have hcs : s'.sh.cseq = s.sh.cseq := step_cseq cfg base s s' .p h hs (by simp)
+        have hone : run cfg s ([] ++ [Tid.p]) = s' := by
+          show run cfg s [Tid.p] = s'
+          rw [run_one, hs]; rfl
         cases pre_own cfg base call l rest _ _ _ _ hk h.glob h.invP.pcinv hp hst with
-        | stay hpre' epseq hent hnent =>
-          refine lift epseq (ih s' h' hpre' hret) ?_
-          intro hok he
-          by_cases he' : entryPc s'.P.pc = true
-          · have := (ih s' h' hpre' hret).okd hok he'
-            rw [← hdn]; exact this
-          · exact hent he (by simpa using he')
-        | commit hc hpost epseq hnent =>
+        | stay hpre' epseq hent hnent hbf5 hbf6 =>
+          have IH := ih s' h' hpre' hret
+          by_cases hb' : beforeFinal s'.P.pc = true
+          · refine lift epseq IH ?_ (fun _ => hb')
+            intro hok he
+            by_cases he' : entryPc s'.P.pc = true
+            · have := IH.okd hok he'
+              rw [← hdn]; exact this
+            · exact hent he (by simpa using he')
+          · -- this step is the last `isDone` test, passed
+            have hb'' : beforeFinal s'.P.pc = false := by simpa using hb'
+            obtain ⟨a1, a2, a3, a4, a5, a6, a7⟩ := IH
+            refine ⟨a1, ?_, ?_, ?_, ?_, ?_, ?_⟩
+            · intro he; rw [hrun]; obtain ⟨x, y⟩ := a2 he; exact ⟨x, by rw [y, epseq]⟩
+            · intro he; rw [hrun]; obtain ⟨x, y⟩ := a3 he; exact ⟨x, by rw [y, epseq]⟩
+            · intro hok he
+              by_cases hbs : beforeFinal s.P.pc = true
+              · exact (hbf6 hbs hb'').1
+              · exact absurd (by cases hpc : s.P.pc <;> rw [hpc] at he <;> simp [entryPc, beforeFinal] at he ⊢) hbs
+            · intro hok hc
+              obtain ⟨b1, b2, hex⟩ := a5 hok hc
+              exact ⟨b1, by rw [hrun, b2, epseq], liftC s' hpre1 hex⟩
+            · intro hok hc
+              rw [hrun]; obtain ⟨x, y⟩ := a6 hok hc; exact ⟨by rw [x, epseq], y⟩
+            · intro hok hb
+              obtain ⟨hd0, hsp⟩ := hbf6 hb hb''
+              refine ⟨[], ts, rfl, ?_, fun hc => ?_⟩
+              · rw [hone]; exact ⟨hs, hd0, hsp, epseq, hcs, hdn⟩
+              · obtain ⟨_, _, pre', post', c1, c2⟩ := a5 hok hc
+                refine ⟨pre', post', c1, ?_⟩
+                rw [show ([] : List Tid) ++ Tid.p :: pre' = Tid.p :: pre' from rfl, hpre1,
+                  show Tid.p :: pre' ++ [Tid.p] = Tid.p :: (pre' ++ [Tid.p]) from rfl, hpre1]
+                exact c2
+        | commit hc hpost epseq hnent hnb =>
           obtain ⟨b1, b2, b3⟩ := pcall_post cfg base call l rest hk s' ts h' hpost r hret
           have hguard : s.sh.pseq + l ≤ s.sh.cseq + cfg.size := by
             have := h'.glob.pc
             have this' : s'.sh.pseq ≤ s'.sh.cseq + cfg.size := this
             omega
-          refine ⟨Or.inl b1, ?_, ?_, ?_, ?_, ?_⟩
+          refine ⟨Or.inl b1, ?_, ?_, ?_, ?_, ?_, ?_⟩
           · intro he; rw [he] at b1; cases b1
           · intro he; rw [he] at b1; cases b1
           · intro _ he; rw [hnent] at he; cases he
           · intro _ _
             refine ⟨b2, by rw [hrun, b3, epseq], [], ts, rfl, ?_⟩
-            have : run cfg s ([] ++ [Tid.p]) = s' := by
-              show run cfg s [Tid.p] = s'
-              rw [run_one, hs]; rfl
-            rw [this]
+            rw [hone]
             exact ⟨hs, hguard, epseq, hcs, hdn⟩
           · intro _ hc'; rw [hc] at hc'; cases hc'
+          · intro _ hb; rw [hnb] at hb; cases hb
         | ret r1 hi hpr hr1 epseq hcase =>
           obtain ⟨f1, f2⟩ := idle_frame cfg base s' ts h' hi (by rw [hret.2.1, hpr])
           have hr : (run cfg s' ts).P.res = some r := hret.2.2
           rw [f1, hr1] at hr
           cases hr
           have hm := run_mono cfg base s' ts h'
-          refine ⟨?_, ?_, ?_, ?_, ?_, ?_⟩
+          refine ⟨?_, ?_, ?_, ?_, ?_, ?_, ?_⟩
           · rcases hcase with ⟨a, _⟩ | ⟨a, _⟩ | ⟨a, _⟩
             · exact Or.inr (Or.inl a)
             · exact Or.inr (Or.inr a)
@@ -592,24 +668,43 @@ theorem pcall_pre (cfg : Cfg) (base : Nat) (call : Call) (l : Nat) (rest : List 
             · rw [hc] at a; cases a
           · intro hok hc
             rw [hrun]
-            rcases hcase with ⟨a, _⟩ | ⟨a, _⟩ | ⟨_, _, _, a⟩
+            rcases hcase with ⟨a, _⟩ | ⟨a, _⟩ | ⟨_, _, _, _, a⟩
             · rw [hok] at a; cases a
             · rw [hok] at a; cases a
             · refine ⟨by rw [f2, epseq], ?_⟩
               have := hm.2
               rw [f2, epseq]
               omega
+          · intro hok hb
+            rcases hcase with ⟨a, _⟩ | ⟨a, _⟩ | ⟨_, hnc, _, hd0, hsp⟩
+            · rw [hok] at a; cases a
+            · rw [hok] at a; cases a
+            · refine ⟨[], ts, rfl, ?_, fun hc => ?_⟩
+              · rw [hone]; exact ⟨hs, hd0, hsp, epseq, hcs, hdn⟩
+              · rw [hnc] at hc; cases hc
       · have e := step_P_other cfg s s' t hs htp
         have epseq := step_pseq cfg base s s' t h hs htp
         have hpre' : PPre cfg call l rest s'.sh s'.P := by
           rw [e]
           exact ⟨hp.cur, hp.prog, hp.pc, fun h35 => step_done_mono cfg s s' t hs (hp.d35 h35), hp.fits⟩
-        refine lift epseq (ih s' h' hpre' hret) ?_
+        refine lift epseq (ih s' h' hpre' hret) ?_ (fun hb => by rw [e]; exact hb)
         intro hok he
         have := (ih s' h' hpre' hret).okd hok (by rw [e]; exact he)
         cases hd : s.sh.done with
         | false => rfl
         | true => rw [step_done_mono cfg s s' t hs hd] at this; cases this
+
+/-- **`Close` makes a blocked or later producer call fail**: a call that has not yet passed its last `isDone` test when
+`done` is set does not return `ok` -/
+theorem pcall_closed (cfg : Cfg) (base : Nat) (call : Call) (l : Nat) (rest : List Call) (hk : plainP call l)
+    (s : St) (sched : List Tid) (h : RInv cfg base s) (hp : PPre cfg call l rest s.sh s.P)
+    (hb : beforeFinal s.P.pc = true) (hd : s.sh.done = true) (r : Res)
+    (hret : pRet (run cfg s sched) rest r) : r.err ≠ .ok := by
+  intro hok
+  obtain ⟨pre, post, _, hlin, _⟩ := (pcall_pre cfg base call l rest hk s sched h hp r hret).okt hok hb
+  have := run_done_mono cfg s pre hd
+  rw [hlin.2.1] at this
+  cases this
 
 /-- the call-level contract of a plain producer call, from the state in which it is about to start -/
 structure PStartConcl (cfg : Cfg) (call : Call) (l : Nat) (s : St) (sched : List Tid) (r : Res) : Prop where
@@ -621,6 +716,10 @@ structure PStartConcl (cfg : Cfg) (call : Call) (l : Nat) (s : St) (sched : List
       ∃ pre post, sched = pre ++ .p :: post ∧ LinP cfg l (run cfg s pre) (run cfg s (pre ++ [.p]))
   okw : r.err = .ok → commits call = false → (run cfg s sched).sh.pseq = s.sh.pseq ∧
       (run cfg s sched).sh.pseq + l ≤ (run cfg s sched).sh.cseq + cfg.size
+  okt : r.err = .ok →
+      ∃ pre post, sched = pre ++ .p :: post ∧ LinW cfg l (run cfg s pre) (run cfg s (pre ++ [.p])) ∧
+        (commits call = true → ∃ mid post', post = mid ++ .p :: post' ∧
+          LinP cfg l (run cfg s (pre ++ .p :: mid)) (run cfg s (pre ++ .p :: mid ++ [.p])))
 
 theorem pcall_start (cfg : Cfg) (base : Nat) (call : Call) (rest : List Call)
     (hk : (∃ n, call = .write n) ∨ (∃ n, call = .wwait n) ∨ ∃ m, call = .wcommit m)
@@ -634,19 +733,39 @@ theorem pcall_start (cfg : Cfg) (base : Nat) (call : Call) (rest : List Call)
     have := congrArg List.length h2
     simp at this
   | cons t ts ih =>
+    have liftT : ∀ (s' : St) (l : Nat), (∀ pre : List Tid, run cfg s (t :: pre) = run cfg s' pre) →
+        (∃ pre post, ts = pre ++ .p :: post ∧ LinW cfg l (run cfg s' pre) (run cfg s' (pre ++ [.p])) ∧
+          (commits call = true → ∃ mid post', post = mid ++ .p :: post' ∧
+            LinP cfg l (run cfg s' (pre ++ .p :: mid)) (run cfg s' (pre ++ .p :: mid ++ [.p])))) →
+        (∃ pre post, t :: ts = pre ++ .p :: post ∧ LinW cfg l (run cfg s pre) (run cfg s (pre ++ [.p])) ∧
+          (commits call = true → ∃ mid post', post = mid ++ .p :: post' ∧
+            LinP cfg l (run cfg s (pre ++ .p :: mid)) (run cfg s (pre ++ .p :: mid ++ [.p])))) := by
+      intro s' l hpre1 ⟨pre, post, b3, b4, b5⟩
+      refine ⟨t :: pre, post, by rw [b3]; rfl, ?_, fun hc => ?_⟩
+      · rw [hpre1 pre, show t :: pre ++ [Tid.p] = t :: (pre ++ [Tid.p]) from rfl, hpre1]; exact b4
+      · obtain ⟨mid, post', c1, c2⟩ := b5 hc
+        refine ⟨mid, post', c1, ?_⟩
+        rw [show t :: pre ++ Tid.p :: mid = t :: (pre ++ Tid.p :: mid) from rfl, hpre1,
+          show t :: (pre ++ Tid.p :: mid) ++ [Tid.p] = t :: (pre ++ Tid.p :: mid ++ [Tid.p]) from rfl, hpre1]
+        exact c2
+    have liftC : ∀ (s' : St) (l : Nat), (∀ pre : List Tid, run cfg s (t :: pre) = run cfg s' pre) →
+        (∃ pre post, ts = pre ++ .p :: post ∧ LinP cfg l (run cfg s' pre) (run cfg s' (pre ++ [.p]))) →
+        (∃ pre post, t :: ts = pre ++ .p :: post ∧ LinP cfg l (run cfg s pre) (run cfg s (pre ++ [.p]))) := by
+      intro s' l hpre1 ⟨pre, post, b3, b4⟩
+      refine ⟨t :: pre, post, by rw [b3]; rfl, ?_⟩
+      rw [hpre1 pre, show t :: pre ++ [Tid.p] = t :: (pre ++ [Tid.p]) from rfl, hpre1]; exact b4
     cases hs : step cfg s t with
     | none =>
       have hrun : run cfg s (t :: ts) = run cfg s ts := by rw [run_cons, hs]; rfl
+      have hpre1 : ∀ pre : List Tid, run cfg s (t :: pre) = run cfg s pre := fun pre => by rw [run_cons, hs]; rfl
       rw [hrun] at hret
-      obtain ⟨a1, a2, a3, a4, a5, a6⟩ := ih s h hidle hprog hret
-      refine ⟨a1, by rw [hrun]; exact a2, by rw [hrun]; exact a3, a4, ?_, by rw [hrun]; exact a6⟩
-      intro hok hc
-      obtain ⟨b1, b2, pre, post, b3, b4⟩ := a5 hok hc
-      refine ⟨b1, by rw [hrun]; exact b2, t :: pre, post, by rw [b3]; rfl, ?_⟩
-      have e1 : run cfg s (t :: pre) = run cfg s pre := by rw [run_cons, hs]; rfl
-      have e2 : run cfg s (t :: pre ++ [.p]) = run cfg s (pre ++ [.p]) := by
-        rw [List.cons_append, run_cons, hs]; rfl
-      rw [e1, e2]; exact b4
+      obtain ⟨a1, a2, a3, a4, a5, a6, a7⟩ := ih s h hidle hprog hret
+      refine ⟨a1, by rw [hrun]; exact a2, by rw [hrun]; exact a3, a4, ?_, by rw [hrun]; exact a6, ?_⟩
+      · intro hok hc
+        obtain ⟨b1, b2, hex⟩ := a5 hok hc
+        exact ⟨b1, by rw [hrun]; exact b2, liftC s _ hpre1 hex⟩
+      · intro hok
+        exact liftT s _ hpre1 (a7 hok)
     | some s' =>
       have hrun : run cfg s (t :: ts) = run cfg s' ts := by rw [run_cons, hs]; rfl
       rw [hrun] at hret
@@ -658,32 +777,36 @@ theorem pcall_start (cfg : Cfg) (base : Nat) (call : Call) (rest : List Call)
         obtain ⟨esh, hcase⟩ := start_own cfg call rest _ _ _ _ hk hidle hprog hst
         have esh' : s'.sh = s.sh := esh
         rcases hcase with ⟨hpre', hent⟩ | ⟨hi, hpr, r1, hr1, hfull, hbig⟩
-        · obtain ⟨a1, a2, a3, a4, a5, a6⟩ := pcall_pre cfg base call _ rest (plainP_amount call s.P hk) s' ts h' (by rw [esh']; exact hpre') r hret
-          refine ⟨a1, ?_, ?_, ?_, ?_, ?_⟩
+        · have hbf : beforeFinal s'.P.pc = true := by
+            cases hpc : s'.P.pc <;> rw [hpc] at hent <;> simp [entryPc, beforeFinal] at hent ⊢
+          obtain ⟨a1, a2, a3, a4, a5, a6, a7⟩ := pcall_pre cfg base call _ rest (plainP_amount call s.P hk) s' ts h' (by rw [esh']; exact hpre') r hret
+          refine ⟨a1, ?_, ?_, ?_, ?_, ?_, ?_⟩
           · intro he; rw [hrun]; obtain ⟨x, y⟩ := a2 he; exact ⟨x, by rw [y, esh']⟩
           · intro he; rw [hrun]; obtain ⟨x, y⟩ := a3 he; exact ⟨x, by rw [y, esh']⟩
           · intro hok; rw [← esh']; exact a4 hok hent
           · intro hok hc
-            obtain ⟨b1, b2, pre, post, b3, b4⟩ := a5 hok hc
-            refine ⟨b1, by rw [hrun, b2, esh'], Tid.p :: pre, post, by rw [b3]; rfl, ?_⟩
-            rw [hpre1 pre, show Tid.p :: pre ++ [Tid.p] = Tid.p :: (pre ++ [Tid.p]) from rfl, hpre1]; exact b4
+            obtain ⟨b1, b2, hex⟩ := a5 hok hc
+            exact ⟨b1, by rw [hrun, b2, esh'], liftC s' _ hpre1 hex⟩
           · intro hok hc
             rw [hrun]; obtain ⟨x, y⟩ := a6 hok hc; exact ⟨by rw [x, esh'], y⟩
+          · intro hok
+            exact liftT s' _ hpre1 (a7 hok hbf)
         · obtain ⟨f1, f2⟩ := idle_frame cfg base s' ts h' hi (by rw [hret.2.1, hpr])
           have hr : (run cfg s' ts).P.res = some r := hret.2.2
           rw [f1, hr1] at hr
           cases hr
-          refine ⟨Or.inr (Or.inr hfull), ?_, ?_, ?_, ?_, ?_⟩
+          refine ⟨Or.inr (Or.inr hfull), ?_, ?_, ?_, ?_, ?_, ?_⟩
           · intro he; rw [he] at hfull; cases hfull
           · intro _; rw [hrun]; exact ⟨hbig, by rw [f2, esh']⟩
           · intro he; rw [he] at hfull; cases hfull
           · intro he; rw [he] at hfull; cases hfull
           · intro he; rw [he] at hfull; cases hfull
+          · intro he; rw [he] at hfull; cases hfull
       · have e := step_P_other cfg s s' t hs htp
         have epseq := step_pseq cfg base s s' t h hs htp
-        obtain ⟨a1, a2, a3, a4, a5, a6⟩ := ih s' h' (by rw [e]; exact hidle) (by rw [e]; exact hprog) hret
-        rw [e] at a3 a5 a6
-        refine ⟨a1, ?_, ?_, ?_, ?_, ?_⟩
+        obtain ⟨a1, a2, a3, a4, a5, a6, a7⟩ := ih s' h' (by rw [e]; exact hidle) (by rw [e]; exact hprog) hret
+        rw [e] at a3 a5 a6 a7
+        refine ⟨a1, ?_, ?_, ?_, ?_, ?_, ?_⟩
         · intro he; rw [hrun]; obtain ⟨x, y⟩ := a2 he; exact ⟨x, by rw [y, epseq]⟩
         · intro he; rw [hrun]; obtain ⟨x, y⟩ := a3 he; exact ⟨x, by rw [y, epseq]⟩
         · intro hok
@@ -692,11 +815,12 @@ theorem pcall_start (cfg : Cfg) (base : Nat) (call : Call) (rest : List Call)
           | false => rfl
           | true => rw [step_done_mono cfg s s' t hs hd] at this; cases this
         · intro hok hc
-          obtain ⟨b1, b2, pre, post, b3, b4⟩ := a5 hok hc
-          refine ⟨b1, by rw [hrun, b2, epseq], t :: pre, post, by rw [b3]; rfl, ?_⟩
-          rw [hpre1 pre, show t :: pre ++ [Tid.p] = t :: (pre ++ [Tid.p]) from rfl, hpre1]; exact b4
+          obtain ⟨b1, b2, hex⟩ := a5 hok hc
+          exact ⟨b1, by rw [hrun, b2, epseq], liftC s' _ hpre1 hex⟩
         · intro hok hc
           rw [hrun]; obtain ⟨x, y⟩ := a6 hok hc; exact ⟨by rw [x, epseq], y⟩
+        · intro hok
+          exact liftT s' _ hpre1 (a7 hok)
 
 /-! ### where the producer is after any schedule -/
 
@@ -773,6 +897,44 @@ theorem pphase_run (cfg : Cfg) (base : Nat) (call : Call) (l : Nat) (rest : List
     cases hs : step cfg s t with
     | none => exact ih s h hp
     | some s' => exact ih s' (inv_step cfg base s s' t h hs) (pphase_step cfg base call l rest hk s s' t h hs hp)
+
+/-- the producer has not yet passed the last `isDone` test of this call: it has not started it, or it is inside
+`waitForWriteSpace` (parked or not) or at the entry of `Write` -/
+def notPastFinal (call : Call) (rest : List Call) (x : St) : Prop :=
+  (x.P.pc = .idle ∧ x.P.prog = call :: rest) ∨ (x.P.cur = some call ∧ x.P.prog = rest ∧ beforeFinal x.P.pc = true)
+
+instance (call : Call) (rest : List Call) (x : St) : Decidable (notPastFinal call rest x) := by
+  unfold notPastFinal; infer_instance
+
+/-- **`Close` makes every blocked or later producer call return end-of-stream (or `ErrBufferFull`), never `ok`**: if at
+some point `x` of the execution `done` is set while the call has not yet passed its last `isDone` test — it has not
+started, or it waits (parked or about to park), or it is anywhere else in `waitForWriteSpace` — it does not return `ok` -/
+theorem pcall_start_closed (cfg : Cfg) (base : Nat) (call : Call) (rest : List Call)
+    (hk : (∃ n, call = .write n) ∨ (∃ n, call = .wwait n) ∨ ∃ m, call = .wcommit m)
+    (s : St) (pre post : List Tid) (h : RInv cfg base s) (hidle : s.P.pc = .idle) (hprog : s.P.prog = call :: rest) (r : Res)
+    (hret : pRet (run cfg s (pre ++ post)) rest r)
+    (hd : (run cfg s pre).sh.done = true) (hnp : notPastFinal call rest (run cfg s pre)) : r.err ≠ .ok := by
+  have hx : RInv cfg base (run cfg s pre) := rinv_run cfg base s pre h
+  rw [run_append] at hret
+  have hk' := plainP_amount call s.P hk
+  have hph := pphase_run cfg base call (amount call s.P) rest hk' s pre h (.notStarted hidle hprog rfl)
+  rcases hnp with ⟨hi, hpr⟩ | ⟨hcur, hpr, hb⟩
+  · intro hok
+    have := (pcall_start cfg base call rest hk (run cfg s pre) post hx hi hpr r hret).okd hok
+    rw [hd] at this; cases this
+  · cases hph with
+    | notStarted _ hprog' _ =>
+      rw [hpr] at hprog'
+      have := congrArg List.length hprog'
+      simp at this
+    | pre hpre => exact pcall_closed cfg base call _ rest hk' _ post hx hpre hb hd r hret
+    | post hpost =>
+      have := hpost.pc
+      cases hpc : (run cfg s pre).P.pc <;> rw [hpc] at this hb <;> simp [postPc, beforeFinal] at this hb
+    | over ho =>
+      rcases ho with ⟨_, hi⟩ | hlt
+      · rw [hi] at hb; simp [beforeFinal] at hb
+      · rw [hpr] at hlt; exact absurd hlt (Nat.lt_irrefl _)
 
 /-- **parked = guard false** for a plain producer call: in a state in which no thread can take a step, reached
 by any schedule from the start of the call, the call is over, or the producer is parked inside THIS call's
